@@ -963,7 +963,7 @@ def gen_tree(rng: random.Random, profile: str) -> Dict[str, Any]:
             if not rel.endswith("__init__.py"):
                 lines = files[rel].split("\n")
                 pos = rng.choice([0, len(lines) // 2, len(lines)])
-                lines.insert(pos, rng.choice(["# pyrefact: skip_file", "x_skip = 1  # pyrefact: skip_file"]))
+                lines.insert(pos, rng.choice(["# pyrefact: skip_file", "x_skip = 1  # pyrefact: skip_file", "# flake8: noqa  # pyrefact: skip_file", "x_skip = 1  # noqa  # pyrefact: skip_file"]))
                 files[rel] = "\n".join(lines)
                 if rng.random() < 0.3:
                     # mixed line endings (part of the file edited on another platform): byte-for-byte means these too
